@@ -55,6 +55,9 @@ CHECKS = {
     'C15': dict(engine='tlc-eaoassembly', technique='TLC evaluation of the FixWindow clause on assembly traces of real set-ups with fix_time_window (Trace_EAOAssembly, mode "fix") + re-optimisation histories', cat='model_checking', ref='DESIGN.md 4 (C15)',
                 text='For the zoo of all asset types (several mapping rows per variable, appended variables) and six window forms (masks, index list, date, empty, all) the bounds before/after fixing, the previous solution and the mapping rows are logged; TLC checks that exactly the variables having a mapping row with a step in the window are pinned to the previous value and all others keep their bounds. The history Setup -> Optimize -> Setup(fix) -> Optimize is replayed: value unchanged under unchanged prices, window part unchanged under new prices, the user dictionary re-usable.',
                 note='"belonging to a step in the window" is read as any-row semantics; trusted: TLC, HiGHS for re-optimisation.'),
+    'C18': dict(engine='tlc-eaomodel', technique='TLC lattice value function of EAOModel under unit injections (+1/-1 at every node and step) + TLC check of the supergradient inequalities (EAOPrices) on reported prices and real re-optimisations', cat='model_checking', ref='DESIGN.md 4 (C18)',
+                text='For LP families (composite, storage, transport, split) TLC computes the lattice optima V(0), V(+1), V(-1) of the configuration with a must-run unit contract at each (node, step); the nodal prices reported by extract_output for every solver returning duals must satisfy V(+1)-V(0) <= price <= V(0)-V(-1) (used where the lattice optimum equals the LP optimum, observed), and V(d) <= V(0)+price*d for real re-optimisations with the nodal right-hand side perturbed by d=+-1/4; all inequalities are evaluated by TLC (EAOPrices).',
+                note='LP only; prices compared only through the supergradient inequality (degenerate problems have many valid prices); trusted: TLC, HiGHS for re-optimisation.'),
 }
 
 ENGINES = [
